@@ -310,23 +310,25 @@ Section Compile.
     end.
   Proof.
     intros (Ht & _ & _). unfold Target.process_top, Target.spec_top.
-    destruct (fs_kind t (top_path C)) eqn:Ek; [reflexivity| |].
-    - destruct (wrap_rt (render_path C render_o t (top_path C))) as [text|x]; cbn [bind]; [|reflexivity].
+    assert (G : match
+        bind (wrap_rt (render_path C render_o t (top_path C))) (fun text =>
+          match match i_top oc with Some ce => if str_eqb (snd ce) (top_version text) then Some ce else None | None => None end with
+          | Some ce => Ok ce
+          | None => bind (wrap_rt (yload text)) (fun data => bind (eval_top data) (fun fl => Ok (fl, top_version text)))
+          end)
+      with
+      | Ok te => bind (wrap_rt (render_path C render_o t (top_path C))) (fun text => bind (wrap_rt (yload text)) eval_top) = Ok (fst te)
+      | Err e => bind (wrap_rt (render_path C render_o t (top_path C))) (fun text => bind (wrap_rt (yload text)) eval_top) = Err e
+      end).
+    { destruct (wrap_rt (render_path C render_o t (top_path C))) as [text|x]; cbn [bind]; [|reflexivity].
       destruct (i_top oc) as [ce|].
       + destruct (str_eqb (snd ce) (top_version text)) eqn:Ev.
         * apply str_eqb_eq in Ev. cbn [fst]. apply Ht. now symmetry.
         * destruct (wrap_rt (yload text)) as [d|x]; cbn [bind]; [|reflexivity].
           destruct (eval_top d) as [fl|x]; cbn [bind]; reflexivity.
       + destruct (wrap_rt (yload text)) as [d|x]; cbn [bind]; [|reflexivity].
-        destruct (eval_top d) as [fl|x]; cbn [bind]; reflexivity.
-    - destruct (wrap_rt (render_path C render_o t (top_path C))) as [text0|x]; cbn [bind]; [|reflexivity].
-      destruct (i_top oc) as [ce|].
-      + destruct (str_eqb (snd ce) (top_version text0)) eqn:Ev.
-        * apply str_eqb_eq in Ev. cbn [fst]. apply Ht. now symmetry.
-        * destruct (wrap_rt (yload text0)) as [d|x]; cbn [bind]; [|reflexivity].
-          destruct (eval_top d) as [fl|x]; cbn [bind]; reflexivity.
-      + destruct (wrap_rt (yload text0)) as [d|x]; cbn [bind]; [|reflexivity].
-        destruct (eval_top d) as [fl|x]; cbn [bind]; reflexivity.
+        destruct (eval_top d) as [fl|x]; cbn [bind]; reflexivity. }
+    destruct (fs_kind t (top_path C)) eqn:Ek; try reflexivity; exact G.
   Qed.
 
   Definition spec_result : res dict :=
@@ -469,7 +471,7 @@ Section Terminates.
 
   Definition yaml_path (n : name) : path := removelast n ++ [last n [] ++ suffix C].
   Definition init_path (n : name) : path := n ++ [s_init ++ suffix C].
-  Definition by_yaml (n : name) : bool := match fs_kind t (yaml_path n) with File _ => true | _ => false end.
+  Definition by_yaml (n : name) : bool := match fs_kind t (yaml_path n) with File _ | Unreadable => true | _ => false end.
   Definition resolvable (n : name) : Prop := exists rn p, resolve n = Ok (rn, p).
 
   Lemma resolvable_cases n : resolvable n ->
@@ -479,10 +481,9 @@ Section Terminates.
     destruct (forallb (seg_ok) n && negb (is_nil n)) eqn:Eok; [|discriminate].
     apply andb_true_iff in Eok as [_ Enn]. split; [destruct n; [discriminate | discriminate]|].
     unfold by_yaml. fold (yaml_path n) in E. fold (init_path n) in E.
-    destruct (fs_kind t (yaml_path n)) eqn:Ey.
-    - apply fs_kind_in. destruct (fs_kind t (init_path n)); [discriminate | discriminate | discriminate].
-    - apply fs_kind_in. destruct (fs_kind t (init_path n)); [discriminate | discriminate | discriminate].
-    - apply fs_kind_in. congruence.
+    destruct (fs_kind t (yaml_path n)) eqn:Ey; cbv beta iota; try discriminate;
+      try (apply fs_kind_in; congruence);
+      (apply fs_kind_in; destruct (fs_kind t (init_path n)); discriminate).
   Qed.
 
   Lemma yaml_path_inj a b : a <> [] -> b <> [] -> yaml_path a = yaml_path b -> a = b.
@@ -640,10 +641,9 @@ Proof. apply removelast_last. Qed.
 Theorem resolve_directory C t n rn p : resolve C t n = Ok (rn, p) -> removelast rn = removelast p.
 Proof.
   unfold resolve. destruct (forallb (seg_ok) n && negb (is_nil n)); [|discriminate].
-  destruct (fs_kind t (removelast n ++ [last n [] ++ suffix C])).
-  - destruct (fs_kind t (n ++ [s_init ++ suffix C])); [discriminate| |]; intros E; injection E as <- <-; now rewrite !removelast_snoc.
-  - destruct (fs_kind t (n ++ [s_init ++ suffix C])); [discriminate| |]; intros E; injection E as <- <-; now rewrite !removelast_snoc.
-  - intros E. injection E as <- <-. now rewrite removelast_snoc.
+  destruct (fs_kind t (removelast n ++ [last n [] ++ suffix C])); try discriminate;
+    try (intros E; injection E as <- <-; now rewrite removelast_snoc);
+    (destruct (fs_kind t (n ++ [s_init ++ suffix C])); try discriminate; intros E; injection E as <- <-; now rewrite !removelast_snoc).
 Qed.
 
 Lemma up_S k rn : rn <> [] -> up (S k) rn = up k (removelast rn).
